@@ -1,0 +1,6 @@
+//go:build !verif
+
+package validator
+
+// verifFault is a no-op unless the module is built with the `verif` tag (fault injection for verification harnesses).
+func verifFault(stage string) error { return nil }
